@@ -78,6 +78,7 @@ class Session:
             try:
                 fcntl.ioctl(0, termios.TIOCSWINSZ, struct.pack("HHHH", 50, 250, 0, 0))
                 os.chdir(os.path.join(self.dir, "cwd"))
+                _child_signals()
                 os.execve(self.cfg["cicada"], [self.cfg["cicada"]], env)
             finally:
                 os._exit(127)
@@ -385,6 +386,16 @@ class Session:
             if d:
                 time.sleep([0, 0.002, 0.01, 0.03][d])
         return res
+
+
+def _child_signals():
+    """forked child, just before exec: default dispositions (pty.fork does not do what subprocess's restore_signals does;
+    a check started as `./check C07 &` from a shell without job control would hand on SIGINT / SIGQUIT ignored)"""
+    for name in ("SIGINT", "SIGQUIT", "SIGTSTP", "SIGTTIN", "SIGTTOU", "SIGHUP", "SIGPIPE", "SIGCHLD", "SIGTERM", "SIGXFSZ"):
+        try:
+            signal.signal(getattr(signal, name), signal.SIG_DFL)
+        except (OSError, ValueError, AttributeError):
+            pass
 
 
 def main():
